@@ -140,9 +140,16 @@ def prepass(fdef, tree, spec, notes):
                  and n.comparators[0].id == x]
         if len(uses) != len(adds) + len(tests) or spec.get('locals', {}).get(x) is None:
             continue
-        for a in adds:
-            a.value.func.attr = 'append'
-        xb.value = ast.copy_location(ast.List(elts=[], ctx=ast.Load()), xb.value)
+        for a in adds:               # `x.add(e)` -> `x = %c01.keys_add(x, e)`   (an ast.Expr becomes an ast.Assign in place)
+            call = ast.copy_location(ast.Call(func=ast.Name(id=OP + 'keys_add', ctx=ast.Load()),
+                                              args=[ast.copy_location(ast.Name(id=x, ctx=ast.Load()), a), a.value.args[0]],
+                                              keywords=[]), a)
+            a.__class__ = ast.Assign
+            a.targets = [ast.copy_location(ast.Name(id=x, ctx=ast.Store()), a)]
+            a.value = call
+            a.type_comment = None
+        xb.value = ast.copy_location(ast.Call(func=ast.Name(id=OP + 'keys_empty', ctx=ast.Load()), args=[], keywords=[]),
+                                     xb.value)
         notes.add('K7 local set %s as the list of its items' % x)
 
     # K6: `yield E` in a generator of keys, E a chain of constant subscripts -> `_y1 = E` (K1: checked unboxing); `yield _y1`
@@ -208,6 +215,15 @@ def alias_nodes(fn, value):
 def translate_op(ex, node, expected):
     name = node.func.id[len(OP):]
     fn = ex.fn
+    K = ('Var', py2lean.HEAP_TP[0])
+    if name == 'keys_empty' and not node.args and not node.keywords:        # K7: the items added to a local set so far
+        return '([] : List %s)' % py2lean.HEAP_TP[0], ('List', K)
+    if name == 'keys_add' and len(node.args) == 2 and not node.keywords:
+        l, lt = ex.expr(node.args[0], ('List', K))
+        e, et = ex.expr(node.args[1], K)
+        if lt != ('List', K) or et != K:
+            raise Unsupported(node, 'a local set of something else than keys')
+        return '(%s ++ [%s])' % (l, e), ('List', K)
     if name != 'unbox_key' or node.keywords or len(node.args) != 1:
         raise Unsupported(node, 'unknown operation %s' % name)
     if not fn.raises or not fn.heap:
@@ -254,6 +270,8 @@ def _fam(method):
                     case.update(k=key, default=rng.choice([None, None, -1, 5]))
                 elif method == 'getitem':
                     case.update(k=key)
+                elif method == 'iterkeys':
+                    case.update(multi=rng.random() < 0.5)
                 elif method == 'getlist':
                     case.update(k=key, default=rng.choice([None, None, [7], []]))
                 yield case
@@ -261,4 +279,4 @@ def _fam(method):
 
 
 FAMILIES = {'OMD.poplast': _fam('poplast'), 'OMD.pop': _fam('pop'), 'OMD.popitem': _fam('popitem'),
-            'OMD.getitem': _fam('getitem'), 'OMD.getlist': _fam('getlist')}
+            'OMD.getitem': _fam('getitem'), 'OMD.getlist': _fam('getlist'), 'OMD.iterkeys': _fam('iterkeys')}
